@@ -118,6 +118,8 @@ def check_c06(rng, n):
                                           "detail": "cpu %s->%s span %s->%s" % (cpu, cpu2, span, s3), "input": inp})
             if len(res["samples"]) < 3:
                 res["samples"].append({"input": inp, "ast": fr(t.ast), "aft": fr(t.aft), "duration": t.duration})
+            if i % 6 == 0:
+                c06_from_workflow_file(rng, res)
         # transfer waits (C03 start formula)
         for i in range(n // 2):
             bw = rng.choice([1, 2, 4, 8])
@@ -333,9 +335,113 @@ def check_c16(rng, n):
                                           "detail": b, "input": inp})
             if len(res["samples"]) < 3:
                 res["samples"].append({"input": inp, "parsed": impl})
+            if i % 4 == 0:
+                c16_realtime_cold(rng, res)
     finally:
         drv.close()
     return res
+
+
+def c16_realtime_cold(rng, res):
+    """A "real time" cold tier (max_data_rate -1: the cold tier is an extension of the hot one, a move takes one
+    step whatever the size) under every timestep unit: the marker is scaled with the other rates, and what the
+    buffer does with it must not depend on the unit."""
+    unit = rng.choice(["seconds", "minutes", "hours", 30, 7, 1, 300])
+    m = {"seconds": 1, "minutes": 60, "hours": 3600}.get(unit, unit)
+    size = rng.choice([5, 12, 60, 61, 3600])
+    hot_cap, cold_cap = size + rng.choice([1, 50]), size + rng.choice([0, 40])
+    spec = {"machines": [{"id": "m0", "flops": 10, "bw": 2}], "system_bandwidth": 1, "total_arrays": 4,
+            "max_ingest": 1, "observations": [{"name": "a", "start": 0, "duration": m, "demand": 1, "rate": 1,
+                                               "ingest_demand": 1, "workflow": {"nodes": [{"id": 0, "comp": 10}], "edges": []}}],
+            "hot": {"capacity": hot_cap, "rate": rng.choice([1, 2, 5])}, "cold": {"capacity": cold_cap, "rate": -1},
+            "timestep": unit, "timestep_explicit": True, "planning": "batch", "scheduling": {"kind": "queue"}, "delay": None}
+    inp = {"scenario": "real-time cold tier (max_data_rate -1)", "unit": unit, "size": size, "hot_cap": hot_cap, "cold_cap": cold_cap}
+    res["evaluations"] += 1
+    bump(res["dist"], "realtime-cold:%s" % unit)
+    try:
+        h = runsim.SimHandle(spec)
+    except Exception as e:   # noqa
+        res["violations"].append({"prop": "C16", "kind": "unit-scaling", "sig": "unit-scaling:realtime-cold-setup",
+                                  "detail": "configuration with a real-time cold tier refused under unit %s: %s" % (unit, errname(e)), "input": inp})
+        return
+    try:
+        buf, env = h.sim.buffer, h.env
+        hot, cold = buf.hot[0], buf.cold[0]
+        o = h.sim.instrument.observations[0]
+        o.total_data_size = size
+        hot.current_capacity -= size
+        hot.observations["stored"].append(o)
+        bad = []
+        for direction, fn in (("hot->cold", buf.move_hot_to_cold), ("cold->hot", buf.move_cold_to_hot)):
+            p = env.process(fn(0))
+            steps = 0
+            try:
+                while not p.triggered and steps < 50:
+                    env.run(until=env.now + 1)
+                    steps += 1
+            except Exception as e:   # noqa
+                bad.append("%s raised %s" % (direction, errname(e)))
+                break
+            src, dst = (hot, cold) if direction == "hot->cold" else (cold, hot)
+            if not p.triggered or p.value is not True:
+                bad.append("%s not completed (%s steps)" % (direction, steps))
+                break
+            if steps > 2 or o not in dst.observations["stored"] or o in src.observations["stored"] or \
+                    hot.current_capacity + cold.current_capacity != hot_cap + cold_cap - size or \
+                    src.current_capacity != src.total_capacity:
+                bad.append("%s: %s steps, hot free %s/%s, cold free %s/%s" % (
+                    direction, steps, fr(hot.current_capacity), hot_cap, fr(cold.current_capacity), cold_cap))
+                break
+        if not bad:
+            res["nontrivial"] += 1
+        for b in bad:
+            res["violations"].append({"prop": "C16", "kind": "unit-scaling", "sig": "unit-scaling:realtime-cold",
+                                      "detail": "under unit %s: %s (with 'seconds' the move is one step and exact)" % (unit, b), "input": inp})
+    finally:
+        h.close()
+
+
+def c06_from_workflow_file(rng, res):
+    """A whole (small) simulation whose workflow file carries demands that are not whole numbers (binary-exact
+    fractions just below / above a multiple of the machine's speed): every task runs for
+    max(1, floor(demand in the FILE / speed), floor(data / bandwidth)) steps - what the planner hands on must be
+    the demand, not a rounded copy of it."""
+    cpu, bw = rng.choice([2, 4, 5, 8, 10]), rng.choice([1, 2, 4])
+    nodes = []
+    for j in range(rng.randint(1, 3)):
+        k = rng.randint(1, 4)
+        comp = k * cpu + rng.choice([-0.25, -0.5, -0.75, 0.25, 0.5, 0, -0.125])
+        nd = {"id": j, "comp": comp}
+        if rng.random() < 0.4:
+            nd["task_data"] = rng.randint(1, 3) * bw + rng.choice([-0.5, -0.25, 0, 0.5])
+        nodes.append(nd)
+    edges = [[j, j + 1, 0] for j in range(len(nodes) - 1)]
+    spec = {"machines": [{"id": "m0", "flops": cpu, "bw": bw}], "system_bandwidth": 1, "total_arrays": 2, "max_ingest": 1,
+            "observations": [{"name": "a", "start": 0, "duration": 2, "demand": 1, "rate": 1, "ingest_demand": 1,
+                              "workflow": {"nodes": nodes, "edges": edges}}],
+            "hot": {"capacity": 100, "rate": 10}, "cold": {"capacity": 100, "rate": 10}, "timestep": "seconds",
+            "planning": "batch", "scheduling": {"kind": rng.choice(["queue", "batch"]), "partitions": 1, "min": 1, "split": None},
+            "delay": None}
+    rec = runsim.run_spec(spec, max_steps=200)
+    res["evaluations"] += 1
+    bump(res["dist"], "fractional-demand-in-file")
+    inp = {"scenario": "fractional demands in the workflow file", "cpu": cpu, "bw": bw, "nodes": nodes}
+    if rec.get("exception") or rec.get("nonterminated") or not rec.get("out"):
+        res["violations"].append({"prop": "C06", "kind": "run-with-fractional-demands-failed", "sig": "fractional-demand-run-failed",
+                                  "detail": str(rec.get("exception") or "did not finish")[:200], "input": inp})
+        return
+    res["nontrivial"] += 1
+    truth = rec["out"]["task_truth"]
+    for nd in nodes:
+        tids = [t for t in truth if "ingest" not in t and t.rsplit("_", 1)[-1] == str(nd["id"])]
+        if len(tids) != 1:
+            continue
+        sp = Fraction(str(truth[tids[0]]["aft"])) - Fraction(str(truth[tids[0]]["ast"]))
+        want = max(1, int(nd["comp"] // cpu), int(nd.get("task_data", 0) // bw))
+        if sp != want:
+            res["violations"].append({"prop": "C06", "kind": "span-not-runtime", "sig": "span-not-runtime:file-demand",
+                                      "detail": "%s ran %s steps; demand %s / speed %s, data %s / bandwidth %s give %s" % (
+                                          tids[0], sp, nd["comp"], cpu, nd.get("task_data", 0), bw, want), "input": inp})
 
 
 # ---------------------------------------------------------------- C18
